@@ -65,6 +65,8 @@ pub(crate) struct TokenResult {
     pub(crate) tokens: Vec<A2lToken>,
     pub(crate) filedata: Vec<String>,
     pub(crate) filenames: Vec<Filename>,
+    /// for each file: the index of the file through which it was included by the main file (itself for direct includes)
+    pub(crate) include_roots: Vec<usize>,
 }
 
 // tokenize()
@@ -76,6 +78,7 @@ pub(crate) fn tokenize(
 ) -> Result<TokenResult, TokenizerError> {
     let mut filenames: Vec<Filename> = vec![filename.clone()];
     let mut filedatas: Vec<String> = vec![filetext.to_owned()];
+    let mut include_roots: Vec<usize> = vec![0];
     let filebytes = filetext.as_bytes();
     let mut next_fileid = fileid + 1;
 
@@ -135,6 +138,10 @@ pub(crate) fn tokenize(
                     // append the tokens from the included file(s)
                     tokens.append(&mut tokresult.tokens);
 
+                    // files that are included by the included file belong to the same include directive of this file
+                    let root = filenames.len();
+                    include_roots.extend(std::iter::repeat(root).take(tokresult.filenames.len()));
+
                     // also save the names of the included file(s)
                     filenames.append(&mut tokresult.filenames);
                     filedatas.append(&mut tokresult.filedata);
@@ -163,6 +170,7 @@ pub(crate) fn tokenize(
         tokens,
         filenames,
         filedata: filedatas,
+        include_roots,
     })
 }
 
